@@ -314,7 +314,8 @@ where
             }
             2 => {
                 let versions_len = usize::read_from(reader)?;
-                let mut versions = Vec::with_capacity(versions_len);
+                // the length comes from the wire: never pre-allocate more than a sane amount
+                let mut versions = Vec::with_capacity(versions_len.min(128));
                 for _ in 0..versions_len {
                     let start = CrsqlDbVersion::read_from(reader)?;
                     let end = CrsqlDbVersion::read_from(reader)?;
@@ -323,12 +324,10 @@ where
                 let ts = Timestamp::read_from(reader)?;
                 Ok(Changeset::EmptySet { versions, ts })
             }
-            _ => {
-                // Read and discard the invalid tag to avoid issues, then create a proper error
-                let _ = reader.read_u8()?;
-                // This is a bit of a hack but should work for speedy contexts
-                panic!("Invalid changeset variant tag: {}", variant_tag);
-            }
+            _ => Err(speedy::Error::custom(format!(
+                "invalid changeset variant tag: {variant_tag}"
+            ))
+            .into()),
         }
     }
 }
